@@ -83,7 +83,9 @@ func (o *Origin) Set(path string, b Behaviour) {
 	o.beh[path] = b
 }
 
-func (o *Origin) SetBytes(path string, body []byte) { o.Set(path, Behaviour{Kind: "bytes", Body: body}) }
+func (o *Origin) SetBytes(path string, body []byte) {
+	o.Set(path, Behaviour{Kind: "bytes", Body: body})
+}
 
 func (o *Origin) URL(path string) string { return o.srv.URL + path }
 
